@@ -233,6 +233,7 @@ impl Engine for C06 {
                 (format!("failing:{}", d.1), Doc::from_str(&d.0), Cfg::default())
             }
             6 if index % 16 == 6 => ("real-svg".to_string(), Doc::from_str(&docgen::real_svg_doc(&mut w)), docgen::draw_cfg(&mut c, false)),
+            6 if index % 16 == 14 => ("odd-config".to_string(), Doc::from_str(&docgen::odd_config_doc(&mut w)), docgen::draw_cfg(&mut c, false)),
             5 => {
                 // multi-error document: several unresolvable elements => MultiError rendering
                 let n = 2 + w.usize(6);
@@ -332,6 +333,20 @@ impl Engine for C06 {
                 env: envs,
                 stack_mib: 0,
                 interfere: 0,
+            });
+        }
+        // the server: one real svgdx-server process, several clients sending the same document
+        // at the same moment, twice (only a configuration the endpoint can express)
+        if (index % 16 == 9 || (tier == Tier::Thorough && index % 16 == 3)) && doc.as_str().is_some() {
+            cfg = Cfg::default();
+            incs.push(Inc {
+                kind: "server-burst".into(),
+                entropy: e.next_u64(),
+                clock_ns: clock + 99_000_000_000,
+                repeats: 0,
+                env: vec![],
+                stack_mib: 0,
+                interfere: 4 + k.below(8) as u8,
             });
         }
         let other_doc = Some(Doc::from_str(&docgen::feature_doc(&mut w, true, true)));
@@ -452,6 +467,35 @@ impl Engine for C06 {
                         }
                     }
                 }
+                "server-burst" => {
+                    // (for the server an empty rendering is "400 Empty response": see C07)
+                    if matches!(obs.first().map(|o| &o.3), Some(Outcome::Ok(b)) if b.is_empty()) {
+                        continue;
+                    }
+                    let mut srv = match ServerChild::start(env, server_port()) {
+                        Ok(s) => s,
+                        Err(e) => {
+                            res.harness_error = Some(format!("svgdx-server: {e}"));
+                            return res;
+                        }
+                    };
+                    let n = inc.interfere.max(2) as usize;
+                    let all = http_burst(srv.port, &scn.doc.0, None, n, 2, Duration::from_secs(30));
+                    let alive = srv.alive();
+                    drop(srv);
+                    res.stats.frontend("server-burst");
+                    res.stats.probe("server_answers_to_simultaneous_requests");
+                    for (i, h) in all.into_iter().enumerate() {
+                        res.stats.evaluations += 1;
+                        let o = match h {
+                            Some(h) if h.status == 200 => Outcome::Ok(h.body),
+                            Some(h) if h.status == 400 => Outcome::Err(String::from_utf8_lossy(&h.body).into_owned()),
+                            Some(h) => Outcome::Panic(format!("http status {}", h.status)),
+                            None => Outcome::Panic(format!("no HTTP response (server {})", if alive { "alive" } else { "died" })),
+                        };
+                        obs.push((format!("server#{j}.{i}"), inc.entropy, inc.clock_ns, o));
+                    }
+                }
                 k @ ("child-file" | "child-stdin" | "child-file-out") => {
                     let dir = run_dir.join(format!("p{j}"));
                     if let Err(e) = std::fs::create_dir_all(&dir) {
@@ -569,7 +613,7 @@ impl Engine for C06 {
         }
         if let Some((k0, _e0, c0, first)) = obs.first().cloned() {
             for (k, _e, c, o) in obs.iter().skip(1) {
-                let is_child = k.starts_with("child");
+                let is_child = k.starts_with("child") || k.starts_with("server");
                 match (&first, o) {
                     (Outcome::Ok(a), Outcome::Ok(b)) => {
                         let (a, b) = if local && *c != c0 {
